@@ -13,6 +13,7 @@ import BigDec.Driver.C10
 import BigDec.Driver.C11
 import BigDec.Driver.C12
 import BigDec.Driver.C13
+import BigDec.Driver.C14
 import BigDec.Driver.C15
 import BigDec.Driver.C19
 import BigDec.Driver.C18
@@ -38,6 +39,7 @@ def dispatch (prop op : String) (args : List String) (impl : String) : Verdict :
   | "C11" => Driver.C11.handle op args impl
   | "C12" => Driver.C12.handle op args impl
   | "C13" => Driver.C13.handle op args impl
+  | "C14" => Driver.C14.handle op args impl
   | "C15" => Driver.C15.handle op args impl
   | "C19" => Driver.C19.handle op args impl
   | "C18" => Driver.C18.handle op args impl
